@@ -57,6 +57,30 @@ def confirm(src, i, sid):
         json.dump(meta, open(os.path.join(d, 'meta.json'), 'w'), indent=1)
     return res.get('confirmed')
 
+def detect_scratch(sid, props=None):
+    """development aid: same as detect but on a scratch copy of /repo (no witness replay, /repo untouched); not recorded as the official result"""
+    d = os.path.join(SEEDED, sid)
+    tmp = tempfile.mkdtemp(prefix='vxdet_')
+    res = {}
+    try:
+        shutil.copytree('/repo/src', tmp + '/src'); shutil.copytree('/repo/benches', tmp + '/benches')
+        for f in ('Cargo.toml', 'Cargo.lock'): shutil.copy('/repo/' + f, tmp)
+        sh('git init -q . && git add -A && git -c user.email=x@x -c user.name=x commit -qm base', cwd=tmp)
+        rc, out = sh('git apply %s' % os.path.join(d, 'patch.diff'), cwd=tmp); assert rc == 0, out
+        for p in (props or ALL):
+            if p == 'C09' and not props: continue
+            rc, out = sh('./check %s --tier quick --repo %s --out /tmp/vx_seed_evidence' % (p, tmp), cwd=ROOT, timeout=1800)
+            lines = [l for l in out.splitlines() if l.startswith(('VIOLATION', 'UNDECIDED', 'OK', 'KNOWN'))]
+            res[p] = {'rc': rc, 'lines': [l[:300] for l in lines]}
+    finally:
+        shutil.rmtree(tmp, ignore_errors=True)
+    print(sid, 'caught_by', sorted(p for p, r in res.items() if r['rc'] == 1), 'undecided', sorted(p for p, r in res.items() if r['rc'] == 2))
+    for p, r in res.items():
+        if r['rc'] != 0:
+            for l in r['lines']:
+                if not l.startswith(('KNOWN', 'OK')): print('   ', p, l[:260])
+    return res
+
 def detect(sid, props=None):
     d = os.path.join(SEEDED, sid)
     rc, out = sh('git -C /repo status --porcelain --untracked-files=no')
@@ -81,5 +105,8 @@ if __name__ == '__main__':
     cmd = sys.argv[1]
     if cmd == 'confirm': sys.exit(0 if confirm(sys.argv[2], sys.argv[3], sys.argv[4]) else 1)
     if cmd == 'detect': detect(sys.argv[2], sys.argv[3:] or None)
+    if cmd == 'scratch': detect_scratch(sys.argv[2], sys.argv[3:] or None)
+    if cmd == 'scratch-all':
+        for sid in sorted(os.listdir(SEEDED)): detect_scratch(sid)
     if cmd == 'detect-all':
         for sid in sorted(os.listdir(SEEDED)): detect(sid)
